@@ -19,8 +19,12 @@ def kws_fn(eng, name):
     if len(c) != 1: raise Inconclusive(f'KinematicsWithShape::{name}: {len(c)} candidates')
     return eng.bodies[c[0]]
 
-def robot_body():
-    return Agg([Opaque('bodypart', 'joint_meshes'), Opaque('bodypart', 'tool'), Opaque('bodypart', 'base'), Opaque('bodypart', 'environment'), Opaque('bodypart', 'safety')], 'collisions::RobotBody')
+def robot_body(st=None):
+    # the safety settings are structured with a SYMBOLIC check mode: which answers are returned must not depend on it (it only governs how many pairs a verdict lists)
+    mode = z3.Int('body_check_mode')
+    if st is not None: st.assume(z3.And(mode >= 0, mode <= 2))
+    safety = Agg([F(z3.Real('body_to_env')), F(z3.Real('body_to_robot')), Opaque('bodypart', 'special_distances'), Enum(mode, [], 'CheckMode')], 'collisions::SafetyDistances')
+    return Agg([Opaque('bodypart', 'joint_meshes'), Opaque('bodypart', 'tool'), Opaque('bodypart', 'base'), Opaque('bodypart', 'environment'), safety], 'collisions::RobotBody')
 
 def run(ck):
     ck.bounds = dict(stack='arbitrary robot (oracle), 3 answers per inverse call', verdicts='arbitrary per answer (oracle)')
@@ -37,7 +41,7 @@ def run(ck):
         cn = [n for n in eng.bodies if n.startswith('collisions::<impl at') and n.endswith('::collides') and eng.bodies[n].nargs == 3]
         if len(cn) != 1: raise Inconclusive('RobotBody::collides not found')
         eng.overrides[cn[0]] = collides
-        w = Agg([BoxV([stack]), robot_body()], 'kinematics_with_shape::KinematicsWithShape'); rw = eng.tmp_ref(st, 0, w)
+        w = Agg([BoxV([stack]), robot_body(st)], 'kinematics_with_shape::KinematicsWithShape'); rw = eng.tmp_ref(st, 0, w)
         tcp = free_pose('tcp'); joints = Agg([F(z3.Real(f'q{i}')) for i in range(6)]); prev = Agg([F_NAN()] + [fconst(0)] * 5) if sentinel else Agg([F(z3.Real(f'prev{i}')) for i in range(6)]); j6 = F(z3.Real('j6arg'))
         if meth in ('forward', 'forward_with_joint_poses', 'kinematic_singularity'): args = [rw, eng.tmp_ref(st, 0, joints)]
         elif meth == 'constraints': args = [rw]
